@@ -1,5 +1,7 @@
 // gen_common.h -- building blocks shared by the per-property plan generators
 #pragma once
+#include <unistd.h>
+#include <cstdio>
 #include <algorithm>
 #include <set>
 #include <vector>
@@ -98,6 +100,107 @@ struct Gen
             plan.items.push_back(std::move(e));
     }
 
+    // "Source literals": one run in five sets 1-3 numeric fields of the finished plan to an integer literal that occurs in the
+    // library's sources (or right next to one; for lengths also literal minus the header sizes 8 / 16 / 24). The dictionary
+    // is extracted from the tree under test at build time (build.sh -> lib/literals.txt next to the binary): a value that a
+    // shortcut, a fast path or a "reserved" rule treats specially is, whatever it is, one of the literals of the code that
+    // does so - pseudo-random 16/32/64-bit draws never hit it. The executor clamps every field to its legal domain.
+    static const std::vector<int64_t>& sourceLiterals()
+    {
+        static const std::vector<int64_t> lits = []
+        {
+            std::vector<int64_t> v;
+            char exe[4096];
+            const ssize_t n = readlink("/proc/self/exe", exe, sizeof exe - 1);
+            if (n <= 0)
+                return v;
+            exe[n] = 0;
+            std::string path(exe);
+            const size_t slash = path.rfind('/');
+            if (slash == std::string::npos)
+                return v;
+            path = path.substr(0, slash) + "/lib/literals.txt";
+            FILE* f = fopen(path.c_str(), "r");
+            if (!f)
+                return v;
+            unsigned long long x;
+            while (fscanf(f, "%llu", &x) == 1 && v.size() < 4000)
+                v.push_back(static_cast<int64_t>(x));
+            fclose(f);
+            return v;
+        }();
+        return lits;
+    }
+    void literalPass()
+    {
+        const auto& lits = sourceLiterals();
+        if (lits.empty() || !rng.chance(1, 5) || plan.cfgGet("wraprun", 0))
+            return;
+        const bool honest = plan.prop == "C01" || plan.prop == "C05" || plan.prop == "C06" || plan.prop == "C16" || plan.prop == "C07" || plan.prop == "C08" ||
+                            plan.prop == "C09" || plan.prop == "C10" || plan.prop == "C13";
+        static const char* honestKeys[] = {"ts", "ifid", "len", "min", "max", "ver", "pifid", "val", "n", "v", "s0", "s1", "s2", "s3", "trail"};
+        static const char* hostileKeys[] = {"ts", "ifid", "len", "min", "max", "ver", "pifid", "val", "n", "v", "s0", "s1", "s2", "s3", "trail", "dev",
+                                            "stream", "ctr", "ptype", "wlen", "ilen", "plen", "dtype", "decl", "dflags", "xflags", "p1v", "ilen2"};
+        std::vector<std::pair<Item*, size_t>> cand;
+        auto consider = [&](Item& it)
+        {
+            for (size_t i = 0; i < it.kv.size(); ++i)
+            {
+                bool ok = false;
+                if (honest)
+                {
+                    for (const char* k : honestKeys)
+                        ok = ok || it.kv[i].first == k;
+                }
+                else
+                    for (const char* k : hostileKeys)
+                        ok = ok || it.kv[i].first == k;
+                if (ok)
+                    cand.emplace_back(&it, i);
+            }
+        };
+        for (auto& it : plan.items)
+        {
+            if (it.tag != "op" || it.get("rep", 0) > 50)
+                continue;
+            consider(it);
+            if (it.sub.size() <= 64)
+                for (auto& m : it.sub)
+                    if (m.get("rep", 0) <= 50)
+                        consider(m);
+        }
+        if (cand.empty())
+            return;
+        const size_t n = 1 + rng.below(3);
+        for (size_t q = 0; q < n; ++q)
+        {
+            auto& c = cand[rng.below(cand.size())];
+            auto& kv = c.first->kv[c.second];
+            int64_t v = lits[rng.below(lits.size())];
+            switch (rng.below(8))
+            {
+                case 0:
+                    v += 1;
+                    break;
+                case 1:
+                    v -= 1;
+                    break;
+                case 2:
+                    if (kv.first == "len" || kv.first == "n" || kv.first == "max" || kv.first == "min")
+                        v -= rng.pick<int64_t>({8, 16, 24});
+                    break;
+                default:
+                    break;
+            }
+            if (kv.first == "len" || kv.first == "n" || kv.first == "v" || kv.first == "trail" || kv.first[0] == 's')
+                v = std::min<int64_t>(std::max<int64_t>(v, 0), 70000);  // (sizes: the executor clamps further)
+            if (kv.first == "max" || kv.first == "min")
+                v = std::min<int64_t>(std::max<int64_t>(v, 0), 70000);
+            kv.second = v;
+        }
+        cfg().set("lit", static_cast<int64_t>(n));
+    }
+
     // Object lifecycle events: the receiver's decoder, a capture module's encoder or the status tracker is copied, moved,
     // assigned over a used object, swapped, self-assigned or forked (OP_LIFE) between two operations of the run, and
     // decoded packets are handed on as copies (cfg plife). Values stay values: no model changes.
@@ -167,6 +270,8 @@ struct Gen
     {
         if (plan.prop != "C06" || plan.cfgGet("sweep", 0) == 0)
             tweakPass();
+        if (plan.prop != "C06" || plan.cfgGet("sweep", 0) == 0)
+            literalPass();
         lifePass();
         std::stable_sort(plan.items.begin(), plan.items.end(), [](const Item& a, const Item& b) {
             const bool ao = a.tag == "op", bo = b.tag == "op";
